@@ -278,7 +278,28 @@ fn corpus() -> Vec<(ASchema, ADoc, Opts, &'static str)> {
     };
     let doc = |vars: Vec<AVar>, sels: Vec<ASel>, frags: Vec<AFrag>| ADoc { ops: vec![AOp { kind: "query", name: "W".into(), vars, sels }], frags };
     let var = |n: &str| AVar { name: n.into(), ty: ATy::named("Int"), default: None };
+    // fixed cases that MUST compile (class ""): option interactions a random draw may miss
+    let enum_schema = ASchema {
+        types: vec![
+            AType::Enum { name: "Unit".into(), values: vec!["METER".into(), "foot".into(), "type".into()] },
+            AType::Scalar { name: "Date".into() },
+            AType::Input { name: "Filter".into(), one_of: false, fields: vec![("unit".into(), ATy::named("Unit")), ("since".into(), ATy::named("Date")), ("nested".into(), ATy::named("Filter"))] },
+            obj("Query", vec![], vec![f("unit", ATy::named("Unit")), f("units", ATy::List(Box::new(ATy::NonNull(Box::new(ATy::named("Unit")))))), f("when", ATy::named("Date"))]),
+        ],
+        query: Some("Query".into()),
+        mutation: None,
+        subscription: None,
+    };
+    let enum_doc = ADoc {
+        ops: vec![AOp { kind: "query", name: "Units".into(), vars: vec![AVar { name: "f".into(), ty: ATy::named("Filter"), default: None }, AVar { name: "u".into(), ty: ATy::NonNull(Box::new(ATy::named("Unit"))), default: None }],
+            sels: vec![fld("unit", vec![]), fld("units", vec![]), fld("when", vec![])] }],
+        frags: vec![],
+    };
+    let both = |r: &str, v: &str, rust: bool| Opts { response_derives: Some(r.into()), variables_derives: Some(v.into()), normalization_rust: rust, ..Opts::default() };
     vec![
+        (enum_schema.clone(), enum_doc.clone(), both("Debug, Clone", "Debug, Clone", false), ""),
+        (enum_schema.clone(), enum_doc.clone(), both("Debug,PartialEq,Clone", "Clone,Debug", true), ""),
+        (enum_schema.clone(), enum_doc.clone(), both("Serialize,Debug", "Deserialize,Debug", false), ""),
         (schema.clone(), doc(vec![var("fooBar"), var("foo_bar")], vec![fld("echo", vec![])], vec![]), Opts::default(), "sibling-names-equal-after-snake-casing"),
         (schema.clone(), doc(vec![], vec![fld("dog", vec![fld("fooBar", vec![]), fld("foo_bar", vec![])])], vec![]), Opts::default(), "sibling-names-equal-after-snake-casing"),
         (schema.clone(), doc(vec![], vec![fld("a", vec![fld("friend", vec![fld("name", vec![])])]), fld("aB", vec![fld("name", vec![])]), ASel::Field { alias: Some("aFriend".into()), name: "dog".into(), sub: vec![fld("name", vec![])] }], vec![]), Opts::default(), "selection-paths-concatenate-to-one-type-name"),
@@ -310,7 +331,7 @@ pub fn run(a: &Args) -> i32 {
         let from_corpus = corpus_iter.next();
         let is_corpus = from_corpus.is_some();
         let (schema, doc, mut opts, corpus_class) = match from_corpus {
-            Some((s, d, o, c)) => (s, d, o, Some(c)),
+            Some((s, d, o, c)) => (s, d, o, if c.is_empty() { None } else { Some(c) }),
             None => {
                 let schema = random_schema(&mut rng, &sk);
                 let doc = random_doc(&mut rng, &schema, &ok);
